@@ -112,7 +112,7 @@ def gen_session(rng, ws, scenario):
         if rng.random() < (0.7 if scenario == 0 and i == 0 else 0.3):
             body = _pad(rng, body)
         pk.append(body)
-    rq = [[rng.choice([0, 0, 4, 4, 8, 7]), str(100 + i)] for i in range(rng.randint(1, 4))]
+    rq = [[rng.choice([0, 0, 4, 4, 8, 7, 1, 1]), str(100 + i)] for i in range(rng.randint(1, 4))]
     sched = [rng.randrange(64) for _ in range(rng.randint(0, 80))] if scenario == 2 else \
             [rng.randrange(64) for _ in range(rng.randint(0, 12))]
     return [ws, scenario, pk, rq, sched, rng.choice([0, 1, 2])]
